@@ -1391,6 +1391,417 @@ def eval_nbr(ctx, exe, cases, stats, hist):
     return evals
 
 
+# --------------------------------------------------------------------------------------------- tied-data stream
+# Exact TIES at the k-th neighbour.  The k-NN specification leaves the choice among tied candidates free, so the
+# permutation clauses are stated (and tested) on tie-free data only (known finding C03-tied-distances-order-
+# dependent-k).  But the statement also says "scaling the data by c scales ... Isomap embeddings by c" and
+# "the embedding is a function of the pairwise distances only": whatever rule picks the tied neighbour, it must
+# not look at anything but the distances (and the sample positions).  So on tied data every transformation that
+# keeps the sample order and maps the distance table to a table with the SAME order relations and ties - exact
+# scalings c (no power-of-two restriction: the cover tree's levels are powers of 1.3), signed coordinate
+# permutations, integer translations - must leave the neighbour SETS unchanged, scale the geodesics by |c|, the
+# matrix handed to the solver by c^2 and the embedding by |c|; and a second identical call in the same process
+# must return the same bits.  Three sub-streams:
+#   nbr   find_neighbors on integer-lattice features (Euclidean / kernel-induced distance) and their exact image;
+#   body  the embed() body of Isomap (harness/c12_meth.cpp, METN) on integer lattice METRICS (chamfer(2,3),
+#         Chebyshev, L1: integer tables, so geodesics, squares and the double centring with n a power of two are
+#         exact): recorded geodesic table and solver matrix of c T against those of T through the extracted
+#         checker rel_scale_tab_b, and H = ISO(geo) against the extracted model;
+#   emb   tapkee::embed (Isomap, Laplacian eigenmaps) on lattice features: bit-identical results under the
+#         transformations that keep the distance table bit-identical, |c| on the embedding distances under scalings
+#         (guard: spectral gap read off the columns of a d+1 dimensional embedding; no noise probe - noise would
+#         break the ties), bit-identical results when the call is repeated in the same process.
+# Eligibility: binary64 square roots of a lattice do not satisfy the triangle inequality exactly (sqrt 32 >
+# sqrt 2 + sqrt 18 by an ulp), and the tree searches are exact only for metrics (property C02).  A verdict about a
+# tree search under a SCALING is therefore raised only when both binary64 tables pass an exact triangle check (always
+# true for {0,1,2}^D lattices: their tight triples are p, p+v, p+2v and fl(sqrt(4x)) = 2 fl(sqrt x)); brute force
+# and the transformations that keep the table bit-identical need no such condition.
+SIG_VPTREE_TIES = "C12-vptree-tied-neighbours-depend-on-rand-state"
+TIED_SCALES = [Fraction(3), Fraction(5), Fraction(7), Fraction(10), Fraction(6), Fraction(12), Fraction(11), Fraction(9),
+               Fraction(100), Fraction(3, 2), Fraction(3, 8), Fraction(5, 16), Fraction(3, 4), Fraction(2), Fraction(1, 2),
+               Fraction(1, 8), Fraction(13, 8), Fraction(1000)]
+NM_CODE = {"brute": 0, "vptree": 1, "covertree": 2}
+
+
+def tied_points(rng):
+    """integer lattice points with plentiful exact distance ties -> (points, family)"""
+    import itertools
+    fam = rng.choice(["cube3", "cube3", "lattice", "lattice", "line"])
+    if fam == "cube3":
+        D = rng.choice([2, 3, 3, 4])
+        sides = [rng.choice([2, 3, 3]) for _ in range(D)]
+        pts = list(itertools.product(*[range(sd) for sd in sides]))
+        if len(pts) > 54:
+            pts = rng.sample(pts, rng.randint(24, 54))
+        elif rng.random() < 0.3 and len(pts) > 12:
+            pts = rng.sample(pts, rng.randint(10, len(pts)))
+    elif fam == "lattice":
+        D = rng.choice([2, 2, 3])
+        side = rng.choice([4, 5, 6, 7])
+        pts = list(itertools.product(range(side), repeat=D))
+        if len(pts) > 49:
+            pts = rng.sample(pts, rng.randint(20, 49))
+        elif rng.random() < 0.3:
+            pts = rng.sample(pts, rng.randint(10, len(pts)))
+    else:
+        pts = [(i,) for i in range(rng.randint(8, 30))]
+    pts = [list(q) for q in pts]
+    if rng.random() < 0.25:
+        pts += [list(rng.choice(pts)) for _ in range(rng.randint(1, 3))]      # exact duplicate samples
+    if rng.random() < 0.6:
+        rng.shuffle(pts)
+    return pts, fam
+
+
+def tied_transform(rng, D, kd, kinds=("scale", "scale", "scale", "rot", "trans", "combo")):
+    kind = rng.choice(kinds)
+    tr = {"kind": kind}
+    if kind in ("scale", "combo"):
+        tr["c"] = rng.choice(TIED_SCALES)
+    if kind in ("rot", "combo"):
+        q = list(range(D))
+        rng.shuffle(q)
+        tr["axes"] = q
+        tr["signs"] = [rng.choice([1, -1]) for _ in range(D)]
+    if kind in ("trans", "combo"):
+        # a large common offset relative to the spread (the differences stay exact); the kernel-induced distance
+        # squares the coordinates themselves: small offsets only
+        mags = [1, 7, 1000] if kd else [1, 1000, 10 ** 6, 2 ** 30, 10 ** 9, 10 ** 12]
+        m = rng.choice(mags)
+        tr["t"] = [rng.choice([1, -1]) * rng.randint(max(1, m // 2), m) for _ in range(D)]
+    return tr
+
+
+def tied_image(X, tr):
+    """exact image of integer points (Fractions)"""
+    D = len(X[0])
+    c = Fraction(tr.get("c", 1))
+    ax = tr.get("axes", list(range(D)))
+    sg = tr.get("signs", [1] * D)
+    t = tr.get("t", [0] * D)
+    return [[c * sg[a] * Fraction(row[ax[a]]) + t[a] for a in range(D)] for row in X]
+
+
+def same_table_bits(tr):
+    """the transformation keeps every computed distance bit-identical"""
+    return "c" not in tr or Fraction(tr["c"]) == 1
+
+
+def float_table_is_metric(X, kd=0):
+    """exact triangle check of the binary64 distance table the callbacks serve for the points X (floats)"""
+    n = len(X)
+    if kd:
+        K = [[math.fsum(a * b for a, b in zip(X[i], X[j])) for j in range(n)] for i in range(n)]
+        Dm = [[math.sqrt(max(0.0, K[i][i] - 2 * K[i][j] + K[j][j])) for j in range(n)] for i in range(n)]
+    else:
+        Dm = [[math.sqrt(math.fsum((a - b) * (a - b) for a, b in zip(X[i], X[j]))) for j in range(n)] for i in range(n)]
+    for a in range(n):
+        Da = Dm[a]
+        for b in range(n):
+            if b == a:
+                continue
+            dab, Db = Da[b], Dm[b]
+            for c in range(n):
+                if Da[c] >= dab + Db[c] and c != b:
+                    if Fraction(Da[c]) > Fraction(dab) + Fraction(Db[c]):
+                        return False
+    return True
+
+
+def lattice_metric_table(shape, metric):
+    import itertools
+    pts = list(itertools.product(*[range(sd) for sd in shape]))
+    def dist(p, q):
+        df = sorted((abs(a - b) for a, b in zip(p, q)), reverse=True)
+        if metric == "cheb":
+            return df[0]
+        if metric == "l1":
+            return sum(df)
+        # chamfer: straight step 2, diagonal step 3 (2-D), space diagonal 4 (3-D weights 2,1,1)
+        return 2 * df[0] + sum(df[1:])
+    return [[dist(p, q) for q in pts] for p in pts]
+
+
+def gen_tied_case(rng, sub=None):
+    sub = sub or rng.choice(["nbr", "nbr", "body", "body", "emb"])
+    nm = rng.choice(["brute", "vptree", "covertree", "covertree"])
+    seed = rng.randrange(1, 1000)
+    if sub == "body":
+        shape = rng.choice([[2, 4], [4, 4], [4, 4], [4, 8], [8, 8], [2, 2, 2], [2, 2, 4], [2, 4, 4], [4, 4, 4], [16], [2, 16]])
+        metric = rng.choice(["chamfer", "chamfer", "cheb", "l1"])
+        T = lattice_metric_table(shape, metric)
+        n = len(T)
+        ql = list(range(n))
+        if rng.random() < 0.5:
+            rng.shuffle(ql)                   # another sample order (the same for T and c T)
+        T = [[T[ql[i]][ql[j]] for j in range(n)] for i in range(n)]
+        return {"stream": "tied", "sub": "body", "n": n, "shape": shape, "metric": metric, "T": T,
+                "k": rng.randint(3, min(9, n - 1)), "d": rng.choice([1, 2]), "nm": nm, "seed": seed,
+                "tr": {"kind": "scale", "c": rng.choice(TIED_SCALES)}}
+    X, fam = tied_points(rng)
+    N, D = len(X), len(X[0])
+    if sub == "nbr":
+        kd = rng.choice([0, 0, 1])
+        return {"stream": "tied", "sub": "nbr", "N": N, "D": D, "family": fam, "X": X, "nm": nm, "seed": seed,
+                "k": rng.randint(2, min(8, N - 1)), "cc": rng.choice([0, 1]), "kd": kd, "tr": tied_transform(rng, D, kd)}
+    m = rng.choice(["isomap", "isomap", "isomap", "la"])
+    kinds = ("scale", "scale", "rot", "trans", "combo") if m == "isomap" else ("rot", "trans")
+    c = {"stream": "tied", "sub": "emb", "N": N, "D": D, "family": fam, "X": X, "nm": nm, "seed": seed, "method": m,
+         "k": rng.randint(3, min(8, N - 1)), "d": rng.choice([1, 2]), "tr": tied_transform(rng, D, 0, kinds)}
+    if m == "la":
+        c["width"] = rng.choice([1.0, 4.0])
+    return c
+
+
+def tied_cmds(c):
+    tr = c["tr"]
+    if c["sub"] == "body":
+        n, cc = c["n"], Fraction(tr["c"])
+        T = [[Fraction(v) for v in row] for row in c["T"]]
+        Tc = [[cc * v for v in row] for row in T]
+        head = "METN isomap %d %d %d %d %d " % (n, c["k"], c["d"], NM_CODE[c["nm"]], c["seed"])
+        return [head + flat(T), head + flat(Tc), "METN isomap %d %d %d %d %d %s" % (
+            n, c["k"], c["d"], NM_CODE[c["nm"]], c["seed"] + 1, flat(T))]
+    X = [[Fraction(v) for v in row] for row in c["X"]]
+    Xp = tied_image(c["X"], tr)
+    Xf, Xpf = [[float(v) for v in r] for r in X], [[float(v) for v in r] for r in Xp]
+    if any(Fraction(a) != b for ra, rb in zip(Xpf, Xp) for a, b in zip(ra, rb)):
+        raise vlib.BuildError("generator bug: the image of a tied case is not exactly representable")
+    if c["sub"] == "nbr":
+        pm = {"nm": c["nm"], "k": c["k"], "cc": c["cc"], "kd": c["kd"], "seed": c["seed"]}
+        return [nbr_cmd(pm, c["N"], c["D"], Xf), nbr_cmd(pm, c["N"], c["D"], Xpf),
+                nbr_cmd(dict(pm, seed=c["seed"] + 1), c["N"], c["D"], Xf)]
+    pm = {"m": c["method"], "d": c["d"] + 1, "k": c["k"], "nm": c["nm"], "em": "dense", "seed": c["seed"]}
+    if "width" in c:
+        pm["width"] = c["width"]
+    p2 = dict(pm)
+    del p2["seed"]                  # the repeated call starts from whatever state the first two left
+    return [emb_cmd(pm, c["N"], c["D"], Xf), emb_cmd(pm, c["N"], c["D"], Xpf), emb_cmd(p2, c["N"], c["D"], Xf)]
+
+
+def tied_eligible(c):
+    """may a difference between the two runs be blamed on the library?  (see the header of this section)"""
+    if c["nm"] == "brute" or same_table_bits(c["tr"]) or c["sub"] == "body":
+        return True
+    X = [[float(v) for v in r] for r in c["X"]]
+    Xp = [[float(v) for v in r] for r in tied_image(c["X"], c["tr"])]
+    if c["N"] > 60:
+        return False
+    kd = c.get("kd", 0)
+    return float_table_is_metric(X, kd) and float_table_is_metric(Xp, kd)
+
+
+def tied_what(c):
+    tr = c["tr"]
+    parts = []
+    if "axes" in tr:
+        parts.append("a signed permutation of the coordinates")
+    if "c" in tr:
+        parts.append("the exact scaling c = %s" % Fraction(tr["c"]))
+    if "t" in tr:
+        parts.append("the integer translation %s" % tr["t"])
+    return " then ".join(parts)
+
+
+def eval_tied(ctx, eexe, xexe, mexe, cases, stats, hist):
+    if not cases:
+        return 0
+    evals = 0
+    env = {"OMP_NUM_THREADS": "1"}
+    emb_cases = [c for c in cases if c["sub"] in ("nbr", "emb")]
+    body_cases = [c for c in cases if c["sub"] == "body"]
+    cmds = []
+    for c in emb_cases:
+        cmds += tied_cmds(c)
+    res = run_impl(ctx, eexe, cmds, timeout=600, env=env) if cmds else []
+    for ci, c in enumerate(emb_cases):
+        r3 = res[3 * ci:3 * ci + 3]
+        key = "tied/%s/%s/%s" % (c["sub"], c["nm"], c["tr"]["kind"])
+        hist[key] = hist.get(key, 0) + 1
+        hist["tied-data/" + c["family"]] = hist.get("tied-data/" + c["family"], 0) + 1
+        if any(skipped(r) for r in r3):
+            continue
+        what = tied_what(c)
+        if c["sub"] == "nbr":
+            N = c["N"]
+            a, b, h = (parse_nbr(r, N) for r in r3)
+            evals += 2
+            bad = [r for r in (a, b, h) if r[0] in ("crash", "bad")]
+            if bad:
+                ctx.violation(case_to_json(c), "find_neighbors aborts / returns garbage on integer lattice data: " + str(bad[0][1])[:300])
+                continue
+            if a[0] != b[0] or (a[0] == "exc" and a[1] != b[1]):
+                ctx.violation(case_to_json(c), "find_neighbors %s on the lattice and %s on its image under %s" % (a, b, what))
+                continue
+            if a[0] == "exc":
+                continue
+            A, B, Hh = a[1], b[1], (h[1] if h[0] == "ok" else None)
+            lens = {len(r) for r in A} | {len(r) for r in B}
+            if len(lens) != 1:
+                ctx.violation(case_to_json(c), "neighbour lists of unequal length / number of neighbours changes under %s: %s"
+                              % (what, sorted(lens)))
+                continue
+            rows = [i for i in range(N) if set(A[i]) != set(B[i])]
+            if rows:
+                if tied_eligible(c):
+                    i = rows[0]
+                    ctx.violation(case_to_json(c), "tied data (integer lattice, %s neighbours, k = %d): the neighbour set of sample %d is "
+                                     "%s on X and %s on the image of X under %s (%d of %d rows differ): which of the equally "
+                                     "distant candidates is taken depends on more than the distances"
+                                  % (c["nm"], c["k"], i, sorted(A[i]), sorted(B[i]), what, len(rows), N))
+                    stats["tied_violations"] = stats.get("tied_violations", 0) + 1
+                else:
+                    # binary64 square roots of this lattice are not a metric: the tree searches are outside their
+                    # contract (C02's labelled float observation), no verdict
+                    stats["tied_float_table_not_metric_differs"] = stats.get("tied_float_table_not_metric_differs", 0) + 1
+            else:
+                stats["tied_nbr_same"] = stats.get("tied_nbr_same", 0) + 1
+            if Hh is not None and any(set(A[i]) != set(Hh[i]) for i in range(N)):
+                n_rows = sum(1 for i in range(N) if set(A[i]) != set(Hh[i]))
+                why = ("tied data: find_neighbors (%s, k = %d) returns different neighbour sets for the SAME input when the "
+                       "state of std::rand differs (srand %d vs %d: %d of %d rows): the choice among equally distant "
+                       "candidates depends on the process-wide random stream, i.e. on the calls made earlier"
+                       % (c["nm"], c["k"], c["seed"], c["seed"] + 1, n_rows, N))
+                ctx.violation(case_to_json(c), why, signature=SIG_VPTREE_TIES if c["nm"] == "vptree" else None)
+            continue
+        # ---- emb
+        a, b, h = (parse_emb(r) for r in r3)
+        evals += 2
+        bad = [(t, r) for t, r in (("original", a), ("transformed", b), ("repeated", h)) if r[0] in ("crash", "bad")]
+        if bad:
+            ctx.violation(case_to_json(c), "embed aborts / returns garbage on the %s lattice input: %s" % (bad[0][0], str(bad[0][1][1])[:300]))
+            continue
+        if a[0] != b[0] or (a[0] == "exc" and a[1] != b[1]):
+            ctx.violation(case_to_json(c), "tied data: the call %s on the lattice but %s on its image under %s" % (
+                "throws " + a[1] if a[0] == "exc" else "succeeds", "throws " + b[1] if b[0] == "exc" else "succeeds", what))
+            continue
+        if a[0] == "exc":
+            stats["both_throw"] = stats.get("both_throw", 0) + 1
+            continue
+        if h[0] == "ok" and r3[0] != r3[2]:
+            why = ("tied data: the same %s call (%s neighbours, k = %d) returns different bits when it is repeated in the "
+                   "same process (the first call ran after srand(%d), the repeated one from the state two calls left): "
+                   "the choice among equally distant neighbours depends on the process-wide random stream"
+                   % (c["method"], c["nm"], c["k"], c["seed"]))
+            ctx.violation(case_to_json(c), why, signature=SIG_VPTREE_TIES if c["nm"] == "vptree" else None)
+        Y, Yp = a[1], b[1]
+        N, d = c["N"], c["d"]
+        if len(Y) != N or len(Yp) != N or not Y or len(Y[0]) != len(Yp[0]) or len(Y[0]) < d:
+            ctx.violation(case_to_json(c), "tied data: shape of the embedding depends on the transformation / is not N x (d+1)")
+            continue
+        if same_table_bits(c["tr"]):
+            if r3[0] != r3[1]:
+                Dm, Dp = dist_matrix(Y), dist_matrix(Yp)
+                e = dist_err(Dm, Dp)
+                ctx.violation(case_to_json(c), "tied data: %s (%s neighbours) returns different bits on the lattice and on its image "
+                                 "under %s although every pairwise distance is bit-identical (embedding distances differ "
+                                 "by %s)" % (c["method"], c["nm"], what, "%.3g" % e if e is not None else "n/a"))
+            else:
+                stats["tied_emb_bitwise_same"] = stats.get("tied_emb_bitwise_same", 0) + 1
+            continue
+        # scaling: spectral gap between the d-th and the (d+1)-th retained eigenvalue (= squared column norms of the
+        # d+1 dimensional embedding, whatever order the library returns them in)
+        lam = [sum(row[j] * row[j] for row in Y) for j in range(len(Y[0]))]
+        order = sorted(range(len(lam)), key=lambda j: -lam[j]) if all(math.isfinite(v) for v in lam) else []
+        if len(order) <= d or not (lam[order[0]] > 0) or (lam[order[d - 1]] - lam[order[d]]) < 1e-3 * lam[order[0]]:
+            stats["tied_degenerate_spectrum_skipped"] = stats.get("tied_degenerate_spectrum_skipped", 0) + 1
+            continue
+        gap = (lam[order[d - 1]] - lam[order[d]]) / lam[order[0]]
+        lamp = [sum(row[j] * row[j] for row in Yp) for j in range(len(Yp[0]))]
+        orderp = sorted(range(len(lamp)), key=lambda j: -lamp[j]) if all(math.isfinite(v) for v in lamp) else order
+        cc = abs(float(Fraction(c["tr"]["c"])))
+        Dm = dist_matrix([[row[j] for j in order[:d]] for row in Y])
+        Dp = dist_matrix([[row[j] for j in orderp[:d]] for row in Yp])
+        err = dist_err([[cc * v for v in row] for row in Dm], Dp)
+        if err is None:
+            continue
+        stats["tied_emb_max_err"] = max(stats.get("tied_emb_max_err", 0.0), err if err < 1e-6 else 0.0)
+        if err > 1e-6:
+            if tied_eligible(c):
+                ctx.violation(case_to_json(c), "tied data (integer lattice): %s embedding (%s neighbours, k = %d) of c X is not c times the "
+                                 "embedding of X for %s: embedding distance matrices differ by %.3g relative to the largest "
+                                 "distance (tolerance 1e-06; spectral gap %.3g)"
+                              % (c["method"], c["nm"], c["k"], what, err, gap))
+                stats["tied_violations"] = stats.get("tied_violations", 0) + 1
+            else:
+                stats["tied_float_table_not_metric_differs"] = stats.get("tied_float_table_not_metric_differs", 0) + 1
+        else:
+            stats["tied_emb_scaled_ok"] = stats.get("tied_emb_scaled_ok", 0) + 1
+    # ---- the Isomap body on integer lattice metrics (exact)
+    cmds = []
+    for c in body_cases:
+        cmds += tied_cmds(c)
+    res = run_impl(ctx, xexe, cmds, env=env) if cmds else []
+    mlines, mmap = [], []
+    big = Fraction(2) ** 500
+    for ci, c in enumerate(body_cases):
+        r3 = res[3 * ci:3 * ci + 3]
+        key = "tied/body/%s/%s" % (c["nm"], c["metric"])
+        hist[key] = hist.get(key, 0) + 1
+        if any(skipped(r) for r in r3):
+            continue
+        evals += 1
+        bad = [r for r in r3 if crashed(r)]
+        if bad:
+            ctx.violation(case_to_json(c), "the Isomap embed() body aborts / hangs on an integer lattice metric: " + str(bad[0]["crash"])[:400])
+            continue
+        tabs = [parse_impl_tables(r[1:]) if r and r[0] == "OK" else None for r in r3]
+        if any(t is None or "st" not in t for t in tabs):
+            ctx.violation(case_to_json(c), "the Isomap embed() body returned a malformed record on an integer lattice metric")
+            continue
+        a, b, h = tabs
+        cc = Fraction(c["tr"]["c"])
+        sa, sb = a["st"][0][0], b["st"][0][0]
+        if sa != sb or (("H" in a) != ("H" in b)):
+            ctx.violation(case_to_json(c), "tied data: the Isomap body %s on the lattice metric T and %s on %s T" % (
+                "throws" if sa else "returns", "throws" if sb else "returns", cc))
+            continue
+        if "H" not in a or "geo" not in a or "geo" not in b:
+            stats["tied_body_threw_before_solver"] = stats.get("tied_body_threw_before_solver", 0) + 1
+            continue
+        if not all(finite(t[g]) for t in (a, b) for g in ("geo", "H")) or any(
+                v > big for t in (a["geo"], b["geo"]) for row in t for v in row):
+            stats["tied_body_graph_not_connected"] = stats.get("tied_body_graph_not_connected", 0) + 1
+            continue
+        n = c["n"]
+        if "geo" in h and finite(h["geo"]) and h["geo"] != a["geo"]:
+            why = ("tied data: the Isomap body (%s neighbours, k = %d, %s lattice metric) computes a different geodesic "
+                   "table for the SAME input when the state of std::rand differs (srand %d vs %d)"
+                   % (c["nm"], c["k"], c["metric"], c["seed"], c["seed"] + 1))
+            ctx.violation(case_to_json(c), why, signature=SIG_VPTREE_TIES if c["nm"] == "vptree" else None)
+        mlines += ["RSC %d %d %s %s %s" % (n, n, qtok(abs(cc)), qtable(a["geo"]), qtable(b["geo"])),
+                   "RSC %d %d %s %s %s" % (n, n, qtok(cc * cc), qtable(a["H"]), qtable(b["H"])),
+                   "ISO %d %s" % (n, qtable(a["geo"])), "ISO23 %d %s" % (n, qtable(a["geo"]))]
+        mmap.append((c, a["H"]))
+    mout = run_model(ctx, mexe, mlines)
+    for i, (c, Ha) in enumerate(mmap):
+        o = mout[4 * i:4 * i + 4]
+        evals += 3
+        cc = Fraction(c["tr"]["c"])
+        for rel, what in ((o[0], "geodesic table of c T = |c| times the geodesic table of T"),
+                          (o[1], "matrix handed to the solver for c T = c^2 times the one for T")):
+            if rel != ["B", "1"]:
+                ctx.violation(case_to_json(c), "tied data, exact stream through the embed() body of Isomap (%s neighbours, k = %d, %s "
+                                 "lattice metric %s, c = %s): relation `%s` fails between the recordings of the two runs: "
+                                 "the neighbourhood graph of c T is not the graph of T"
+                              % (c["nm"], c["k"], c["metric"], "x".join(map(str, c["shape"])), cc, what))
+                stats["tied_violations"] = stats.get("tied_violations", 0) + 1
+                break
+        else:
+            stats["tied_body_exact_ok"] = stats.get("tied_body_exact_ok", 0) + 1
+        Hm, H23 = parse_model_table(o[2]), parse_model_table(o[3])
+        if Hm is None or H23 is None:
+            raise vlib.BuildError("model driver returned a malformed table")
+        if Hm != Ha:
+            if H23 == Ha:
+                stats["isomap_stage_equals_pre_f23_model"] = stats.get("isomap_stage_equals_pre_f23_model", 0) + 1
+            else:
+                ctx.mismatch(case_to_json(c), "isomap embed() on a lattice metric: the matrix handed to eigendecomposition_via differs "
+                                "from the extracted model applied to the recorded geodesics")
+                stats["model_mismatch"] = stats.get("model_mismatch", 0) + 1
+    return evals
+
+
 # --------------------------------------------------------------------------------------------- history stream
 RANDOMIZED = ["spe", "ra", "lmds", "lisomap", "fa", "tsne", "ms", "eig-randomized", "passthru"]
 # which allow-listed object of Equiv_Spec.v a call in a history exercises
@@ -1598,10 +2009,10 @@ def emb_flags(ctx):
 def budgets(ctx, factor=1):
     if ctx.quick:
         return {"exact": 240 * factor, "assembly": 30 * factor, "meta": 400 * factor, "history": 40 * factor,
-                "nbr": 200 * factor}
+                "nbr": 200 * factor, "tied": 150 * factor}
     # (re-timed in wave 2 on a quiet machine: 1500 / 200 / 3000 / 200 / 2000 took 306 s, of which 151 s builds)
     return {"exact": 4000 * factor, "assembly": 400 * factor, "meta": 20000 * factor, "history": 2000 * factor,
-            "nbr": 10000 * factor}
+            "nbr": 10000 * factor, "tied": 3000 * factor}
 
 
 def generate(rng, b):
@@ -1630,11 +2041,13 @@ def generate(rng, b):
     history = [gen_history(rng) for _ in range(b["history"])]
     assembly = [gen_assembly_case(rng) for _ in range(b["assembly"])]
     nbr = [gen_nbr_case(rng) for _ in range(b["nbr"])]
-    return exact, meta, history, assembly, nbr
+    # drawn last: the earlier streams see the same cases as before the tied stream existed
+    tied = [gen_tied_case(rng) for _ in range(b.get("tied", 0))]
+    return exact, meta, history, assembly, nbr, tied
 
 
 def corpus_cases(ctx):
-    exact, meta, history, assembly, nbr = [], [], [], [], []
+    exact, meta, history, assembly, nbr, tied = [], [], [], [], [], []
     for name, c in ctx.corpus():
         c = c.get("case", c)
         s = c.get("stream")
@@ -1648,7 +2061,9 @@ def corpus_cases(ctx):
             assembly.append(case_from_json(c))
         elif s == "nbr":
             nbr.append(c)
-    return exact, meta, history, assembly, nbr
+        elif s == "tied":
+            tied.append(case_from_json(c))
+    return exact, meta, history, assembly, nbr, tied
 
 
 def run(ctx):
@@ -1728,8 +2143,8 @@ def run(ctx):
 
     stats, hist = {}, {}
     b = budgets(ctx)
-    cex, cme, chi, cas, cnb = corpus_cases(ctx)
-    exact, meta, history, assembly, nbr = generate(rng, b)
+    cex, cme, chi, cas, cnb, cti = corpus_cases(ctx)
+    exact, meta, history, assembly, nbr, tied = generate(rng, b)
     n = 0
     n += eval_exact(ctx, exe, mexe, cex + exact, stats)
     n += eval_methods(ctx, xexe, mexe, cex + exact, stats)
@@ -1737,6 +2152,7 @@ def run(ctx):
     t_exact = ctx.elapsed()
     n += eval_meta(ctx, eexe, cme + meta, stats, hist)
     n += eval_nbr(ctx, eexe, cnb + nbr, stats, hist)
+    n += eval_tied(ctx, eexe, xexe, mexe, cti + tied, stats, hist)
     t_meta = ctx.elapsed()
     n += eval_history(ctx, eexe, chi + history, stats, hist)
     if stats.get("isomap_stage_equals_pre_f23_model"):
@@ -1753,7 +2169,7 @@ def run(ctx):
         sb = budgets(ctx, 5)
         if not inv_ok:
             sb["history"] *= 3
-        e2, m2, h2, a2, n2 = generate(rng, sb)
+        e2, m2, h2, a2, n2, t2 = generate(rng, sb)
         n += eval_exact(ctx, exe, mexe, e2, stats)
         if not ctx.has_violation():
             n += eval_methods(ctx, xexe, mexe, e2, stats)
@@ -1765,6 +2181,9 @@ def run(ctx):
         if not ctx.has_violation():
             n += eval_nbr(ctx, eexe, n2, stats, hist)
             nbr += n2
+        if not ctx.has_violation():
+            n += eval_tied(ctx, eexe, xexe, mexe, t2, stats, hist)
+            tied += t2
         if not ctx.has_violation():
             n += eval_history(ctx, eexe, h2, stats, hist)
         exact += e2
@@ -1799,6 +2218,8 @@ def run(ctx):
         distinct.add(hashlib.sha1(json.dumps(case_to_json(c), sort_keys=True).encode()).hexdigest())
     for c in nbr:
         distinct.add(hashlib.sha1(json.dumps(c, sort_keys=True).encode()).hexdigest())
+    for c in tied:
+        distinct.add(hashlib.sha1(json.dumps(case_to_json(c), sort_keys=True).encode()).hexdigest())
     hist["assembly"] = len(assembly)
     samples = [case_to_json(exact[0])] if exact else []
     if meta:
@@ -1846,6 +2267,11 @@ def replay(ctx, case):
                 eval_methods(ctx, xexe, mexe, [case_from_json(case)], stats)
         else:
             eval_assembly(ctx, exe, mexe, [case_from_json(case)], stats)
+    elif s == "tied":
+        eexe = ctx.cpp("harness/c12_emb.cpp", name="c12_emb", sanitize=False, extra=emb_flags(ctx))
+        xexe = ctx.cpp("harness/c12_meth.cpp", name="c12_meth", sanitize=False, extra=emb_flags(ctx))
+        mexe = ctx.extract()
+        eval_tied(ctx, eexe, xexe, mexe, [case_from_json(case)], stats, hist)
     elif s in ("meta", "history", "nbr"):
         eexe = ctx.cpp("harness/c12_emb.cpp", name="c12_emb", sanitize=False, extra=emb_flags(ctx))
         if s == "meta":
